@@ -57,9 +57,9 @@ type Session struct {
 }
 
 type Member struct {
-	Nick  string // lower-case key in channel.nicks
-	Op    bool
-	Voice bool
+	Nick     string // lower-case key in channel.nicks
+	Op       bool
+	Voice    bool
 	HasPerms bool // false if the entry is a nil pointer
 }
 
